@@ -112,6 +112,82 @@ def run_cases(b, cases, workdir):
     return obs, can_ns
 
 
+def transient_fault_family(rep, b):
+    """A fault that hits ONE call (the open or read of an ancestor's stat file fails once) must not change the verdict of the NEXT call of the same
+    process: call A under the fault, call B undisturbed, B must drop exactly as in the run without any fault. (strace injection, as in C03.)"""
+    import re
+    ctx = cf.Ctx(b, os.path.join(b["root"], "transient"))
+    filters.open_tree(ctx.w, b["root"])
+    open(ctx.log, "wb").close()
+    ini = b'[snoopy]\nmessage_format = "%{cmdline}"\noutput = file:' + ctx.log + b'\nfilter_chain = "exclude_spawns_of:sshd-t"\n'
+    s = drv.Script().add("childtimeout", 20)
+    s.add("sinkfile", "file", drv.hx(ctx.log)).path(ctx.helper).argv([b"prog", b"x"]).envp([b"A=1"]).add("ret", -1, 2).add("snap", 0)
+    s.add("ini", drv.hx(ini)).add("name", drv.hx(b"sshd-t")).add("fork").add("name", drv.hx(b"caller"))
+    s.call("execve", "a").call("execve", "b").add("endfork")
+    sp = os.path.join(ctx.w, "t.script")
+    open(sp, "w").write(s.text())
+    pre = b["lib"] + ":" + os.path.join(c.BUILD, "librec.so")
+
+    def once(inject, tag):
+        op, tr = os.path.join(ctx.w, tag + ".out"), os.path.join(ctx.w, tag + ".strace")
+        for f in (op, tr):
+            if os.path.exists(f):
+                os.unlink(f)
+        cmd = ["strace", "-f", "-o", tr, "-s", "80"] + (["-e", "inject=" + inject] if inject else []) + [
+            "-E", "LD_PRELOAD=" + pre, "-E", "XDRV_INI=" + os.path.join(ctx.etc, "snoopy.ini"), "-E", "XDRV_MARK=1", os.path.join(c.BUILD, "xdrv"), sp, op]
+        try:
+            subprocess.run(cmd, capture_output=True, timeout=120, cwd=ctx.w, stdin=subprocess.DEVNULL)
+        except subprocess.TimeoutExpired:
+            return None, tr
+        recs = {}
+        for line in (open(op, errors="replace") if os.path.exists(op) else []):
+            try:
+                e = json.loads(line)
+            except ValueError:
+                continue
+            if e.get("ev") == "at" and e.get("label") in ("a", "b"):
+                recs[e["label"]] = bool(cf.frame_records("file", e["sinks"].get("file")))
+        return recs, tr
+    dry, tr = once(None, "dry")
+    if not dry or dry.get("b") is not False:
+        rep.assumptions.append("transient-fault family: the undisturbed run did not drop call B (%r); family skipped" % (dry,))
+        return 0
+    # system calls of call A (between the first ENTER and LEAVE markers) that touch a /proc/<pid>/stat file
+    counts, inwin, plans, fdstat = {}, False, [], set()
+    for line in open(tr, errors="replace"):
+        m = re.match(r"^(\d+)\s+(\w+)\((.*)$", line)
+        if not m:
+            continue
+        name, rest = m.group(2), m.group(3)
+        counts[name] = counts.get(name, 0) + 1
+        if name == "write" and "XDRV-ENTER" in rest:
+            inwin = not plans and not fdstat and counts.get("_entered", 0) == 0
+            counts["_entered"] = counts.get("_entered", 0) + 1
+            continue
+        if name == "write" and "XDRV-LEAVE" in rest:
+            inwin = False
+            continue
+        if not inwin:
+            continue
+        if name == "openat" and re.search(r'"/proc/\d+/stat"', rest):
+            for en in ("EMFILE", "ENFILE", "EACCES", "ENOMEM"):
+                plans.append(("openat:error=%s:when=%d" % (en, counts[name]), "open of an ancestor's stat file fails with %s during call A" % en))
+            fd = rest.rsplit("=", 1)[1].strip().split()[0]
+            fdstat.add(fd)
+        elif name == "read" and rest.split(",", 1)[0].strip() in fdstat:
+            for en in ("EIO", "EINTR"):
+                plans.append(("read:error=%s:when=%d" % (en, counts[name]), "read of an ancestor's stat file fails with %s during call A" % en))
+    n = 0
+    for inj, what in plans[:12]:
+        got, _ = once(inj, "f%d" % n)
+        n += 1
+        if got is None or "b" not in got:
+            rep.violation("transient-fault:no-result", "%s: the process did not finish both calls" % what, dict(inject=inj))
+        elif got["b"] is not False:
+            rep.violation("transient-fault:sticky", "%s; the following, undisturbed call of the same process is then logged although its parent is listed" % what, dict(inject=inj, records=got))
+    return n
+
+
 def run(tier, seed, replay=None):
     rep = c.Reporter("C15", tier, seed, "model_checking")
     rnd = random.Random(seed)
@@ -190,6 +266,8 @@ def run(tier, seed, replay=None):
             rep.violation("%s:%s%s%s" % (kind, "empty-items" if "" in items else "plain-list", ":deep" if len(chain) > 3 else "", ":unreadable-from-%d" % unread if unread else ""),
                           "ancestors (parent first) %r%s, own name %r, exclude_spawns_of:%s : %s" % (chain, " (unreadable from position %d up)" % unread if unread else "", selfname, ",".join(items)[:120], prob),
                           dict(chain=chain, self=selfname, list=items, contract="drop" if h["drop"] else "pass"))
+    ntf = transient_fault_family(rep, b)
+    rep.cov["transient_fault_runs"] = ntf
     rep.cov["traces_validated_against_impl"] = len(cases)
     rep.cov["evaluations"] = len(cases)
     rep.cov["distinct_nontrivial"] = nontriv
